@@ -511,3 +511,4 @@ from suites import c03 as _c03
 for _k in [k for k in _c03.GROUPS if k.startswith("kind:")]:
     GROUPS[f"unparser-keeps-the-order-of-the-tree/{_k[5:]}"] = _c03.GROUPS[_k]
 REPLAY.update({k: v for k, v in _c03.REPLAY.items() if k not in REPLAY})
+NO_FRAME_GROUPS = tuple(k for k in GROUPS if k.startswith("unparser-keeps-the-order-of-the-tree/"))  # (their frames are C03's)
